@@ -9,6 +9,16 @@ TRUST = ("Trusted base: CPython, Hypothesis, the reference models under lsfverif
          "'held' means held on the cases counted in the evidence file.")
 
 CHECKS = {
+    "C08": dict(
+        category="exploration",
+        technique="exhaustive RFC 3339 offset/fraction sweep against an integer-arithmetic reference, plus Hypothesis-generated deadline-race scenarios on a virtual clock (delivery delays, reply delays around deadlines, crash+redelivery, engine time zone)",
+        text=("parse_rfc3339_datetime is compared with an independent integer-arithmetic parser on every offset -23:59..+23:59 and Z x 0..9 fractional digits x 6 base instants (complete enumeration). "
+              "On the virtual clock the real engine runs Wait (Seconds/SecondsPath/Timestamp/TimestampPath, late delivery, crash and redelivery), Task TimeoutSeconds with replies just before/after/never "
+              "(with Retry/Catch on States.Timeout/States.ALL), machine TimeoutSeconds with Retry/Catch that must not intercept it, and cancelled timers that must never fire; completion instants are compared "
+              "exactly (never early beyond 2 us, equal within 1 ms) with the engine's local zone drawn from UTC, +05:30, -03:30, +12:45."),
+        design_ref="DESIGN.md section 5 C08",
+        note="Time passes only where the harness advances the virtual clock; ties (reply exactly at a deadline) and leap seconds are not generated; HeartbeatSeconds is not implemented by the engine and not in the statement. " + TRUST,
+    ),
     "C14": dict(
         category="exploration",
         technique="exhaustive operator x value x constant table plus Hypothesis-generated Boolean rule trees, each run as a one-Choice machine through the real engine and compared with a typed reference evaluator",
